@@ -14,6 +14,16 @@ Record robs := mkrobs {
   o_returned : bool            (* Submit returned exactly what the reader returned *)
 }.
 
+(* one call of a sequence on one runtime; the reader keeps the response it was handed *)
+Record seq_call := mkseq {
+  s_parsed : option bytes;                     (* mime.ParseMediaType of the effective content type *)
+  s_resp : response;                           (* what the server sent *)
+  s_outcome : nat;                             (* 0 the reader ran, 1 parse error, 2 no consumer, 3 other *)
+  s_tag : nat;
+  s_first : nat * bytes * bytes * bytes;       (* code, status, X-Token, Content-Type as seen inside the reader *)
+  s_later : nat * bytes * bytes * bytes        (* the same questions asked of the kept response after later calls *)
+}.
+
 Inductive case :=
 | CResp (reg : registry) (default_mt : bytes)
         (parsed : option bytes)                 (* mime.ParseMediaType of the effective content type *)
@@ -22,7 +32,13 @@ Inductive case :=
         (queries : list (bytes * bytes * list bytes))   (* canonical key, GetHeader answer, GetHeaders answer *)
         (op_client op_ctx rt_ctx : bool)
         (o : robs)
-| CConc (goroutines calls : nat) (mismatches errors : nat).
+| CConc (goroutines calls : nat) (mismatches errors : nat)
+        (stale : nat)                           (* kept responses that no longer answer for their own call when asked again later *)
+| CRoute (op : option client_cfg) (rt : client_cfg) (slow : bool) (op_ctx rt_ctx : bool)
+         (panicked : bool)
+         (t : call_trace)                       (* what the stubs, jars and redirect policies recorded, and how the call ended *)
+         (ctx : nat)                            (* whose context reached the round tripper *)
+| CSeq (reg : registry) (default_mt : bytes) (calls : list seq_call).
 
 Definition origin_code (o : origin) : nat :=
   match o with FromOperation => 0 | FromTransport => 1 | Background => 2 end.
@@ -33,6 +49,27 @@ Definition header_ct (r : response) : option bytes :=
 Definition query_ok (r : response) (q : bytes * bytes * list bytes) : bool :=
   let '(k, one, all) := q in
   bytes_eqb (get_header r k) one && list_eqb bytes_eqb (get_headers r k) all.
+
+Definition seq_corr (reg : registry) (d : bytes) (c : seq_call) : bool :=
+  match submit_response reg d (s_parsed c) (s_resp c) with
+  | Delivered tag _ _ _ =>
+    Nat.eqb (s_outcome c) 0 && Nat.eqb (s_tag c) tag &&
+    view_eqb (s_first c) (retained_view (s_resp c)) && view_eqb (s_later c) (retained_view (s_resp c))
+  | Failed (ErrParse _) => Nat.eqb (s_outcome c) 1
+  | Failed (ErrNoConsumer _) => Nat.eqb (s_outcome c) 2
+  | Failed (UseConsumer _) => false
+  end.
+
+(* the property on the implementation's answers: the right consumer; what the reader sees is what was sent, and
+   stays so for a kept response whatever calls follow *)
+Definition sent_view (r : response) : nat * bytes * bytes * bytes :=
+  (r_code r, r_status r, hd [] (header_values (r_headers r) x_token), hd [] (header_values (r_headers r) content_type)).
+
+Definition seq_prop (reg : registry) (c : seq_call) : bool :=
+  if Nat.eqb (s_outcome c) 0 then
+    match s_parsed c with Some mt => right_consumer reg mt (s_tag c) | None => false end &&
+    view_eqb (s_first c) (sent_view (s_resp c)) && view_eqb (s_later c) (sent_view (s_resp c))
+  else negb (match s_parsed c with Some mt => servable reg mt | None => false end).
 
 Definition check_case (c : case) : N :=
   match c with
@@ -63,6 +100,12 @@ Definition check_case (c : case) : N :=
         (* a failure: only when no consumer can be chosen, and it names the content type *)
         negb (match parsed with Some mt => servable reg mt | None => false end) && is_infix quoted (o_msg o)
     in verdict corr prop
-  | CConc g k mismatches errors =>
-    verdict true (Nat.eqb mismatches 0 && Nat.eqb errors 0)
+  | CConc g k mismatches errors stale =>
+    verdict true (Nat.eqb mismatches 0 && Nat.eqb errors 0 && Nat.eqb stale 0)
+  | CRoute op rt slow op_ctx rt_ctx panicked t ctx =>
+    let ctx_ok := Nat.eqb ctx (origin_code (choose_context op_ctx rt_ctx)) in
+    verdict (negb panicked && ctx_ok && trace_eqb t (route_call op rt slow))
+            (negb panicked && ctx_ok && right_client op rt slow t)
+  | CSeq reg d calls =>
+    verdict (forallb (seq_corr reg d) calls) (forallb (seq_prop reg) calls)
   end.
